@@ -264,7 +264,7 @@ template <size_t L> struct Session : ISession {
             else unsupported(a);
          } else if (op == "sprintf") {
             // rendering of the same format/arguments by the C library into a large buffer is logged as src
-            std::vector<char> big(4096);
+            std::vector<char> big(a.src.size() + 4096);
             CStr c(a.src);
             int n = 0;
             switch (a.p1) {
